@@ -138,6 +138,14 @@ where
         let remainder = proof.parse_remainder()?;
         let (layer_queries, layer_proofs) =
             proof.parse_layers::<H, E>(domain_size, folding_factor)?;
+        // there is one commitment per layer plus the commitment to the remainder
+        if layer_commitments.len() != layer_proofs.len() + 1 {
+            return Err(DeserializationError::InvalidValue(format!(
+                "expected {} FRI layers, but the proof contains {}",
+                layer_commitments.len().saturating_sub(1),
+                layer_proofs.len()
+            )));
+        }
 
         Ok(DefaultVerifierChannel {
             layer_commitments,
